@@ -425,7 +425,7 @@ class C15(Check):
     def generate(self, rng, tier):
         frames = dict(self._frames)
         # 1. exhaustive single-byte corruption (thorough) / a deterministic slice of it (quick; the slice moves with the seed)
-        stride = 1 if tier == "thorough" else 5
+        stride = 1 if tier == "thorough" else 6
         phase = rng.randrange(stride)
         for j, (name, i, v) in enumerate(self.corruptions()):
             if j % stride != phase: continue
@@ -437,7 +437,7 @@ class C15(Check):
                 h = FR.fix_icmp6(g)
                 if h is not None and h != g: yield frame_case(h, "set+csum %s %d %02x" % (name, i, v))
         # 2. structure-aware and random
-        n = 20000 if tier == "quick" else 250000
+        n = 14000 if tier == "quick" else 250000
         for _ in range(n):
             yield self.g_structured(rng)
 
@@ -529,8 +529,8 @@ C15.level_text = (
     "(D14, TLV bodies, llc/lldp printing, TCP option overrunning the header) with their repaired counterparts. Every run re-checks the model against the real "
     "classes on every truncation and single-byte corruption of 84 valid frames covering all 21 modules and evaluates the 'nothing raises, progress recorded' oracle.")
 C15.level_note = (
-    "The theorems are about the hand-written model Model/PacketParse.lean of the code AFTER the proposed repairs D14, C15-1..C15-4 (not yet committed: on /repo the check "
-    "reports the violations); they are tied to the code only by the differential run. PARTIAL: layers handed to ipv6, icmpv6 (incl. NDP), dhcp, dns, rip, vxlan, igmp, "
+    "The theorems are about the hand-written model Model/PacketParse.lean of the code at HEAD, i.e. after the repairs D14, C15-1..C15-4 (committed d7ff84a..1392d59; Cfg.head = the tree before them, used only by the "
+    "_defect witnesses); they are tied to the code only by the differential run. PARTIAL: layers handed to ipv6, icmpv6 (incl. NDP), dhcp, dns, rip, vxlan, igmp, "
     "gre, mpls, eapol/eap and the MPTCP TCP option end the model's chain as `foreign`: for those 11 parser modules NOTHING is proved, only the oracle 'no exception from "
     "parse / pack / str / dump / PacketIn.parsed' is evaluated on the exhaustive mutation stream (hence parse_total_partial etc.). Python's recursion limit is modelled "
     "abstractly as a nesting budget (CPython spends 2-3 frames per nested header). The print model contains only the two raising operations found in the modelled "
